@@ -744,6 +744,9 @@ at most `SHUTDOWN_FINAL_CHANCE_DELAY` ahead unless something restarts it. -/
 def armFinalChance (v : VSock) : VSock :=
   if v.state.isLocalFinOrLater then
     { v with timers := { v.timers with inactivity := Timer.arm v.timers.inactivity v.pollNow SHUTDOWN_FINAL_CHANCE_DELAY false } }
+  else if v.rx.readerDropped ∧ v.tx.writerDropped then
+    -- the application is gone but the connection cannot finish yet: do not wait for the remote forever
+    { v with timers := { v.timers with inactivity := Timer.arm v.timers.inactivity v.pollNow v.opts.inactivityTimeout false } }
   else v
 
 inductive PollResult where
